@@ -17,7 +17,7 @@ VARIABLES l, dead
 Proj(t) == [out |-> t.out, sent |-> t.sent, live |-> t.live, hopen |-> (t.handle = "open"), hmode |-> t.hmode]
 
 Fresh0(d, m) == [node |-> "present", fresh |-> TRUE, handle |-> "open", detect |-> d, armed |-> FALSE,
-                 live |-> 1, sent |-> "none", out |-> "ok", act |-> "open", mode |-> m, hmode |-> m]
+                 live |-> 1, sent |-> "none", out |-> "ok", act |-> "open", mode |-> m, hmode |-> m, oarmed |-> FALSE]
 
 Clause(e) ==
     IF e.obs.hmode # s.mode THEN "ReopenedAsRequested"
